@@ -39,6 +39,13 @@ theorem matchTree_sound (m : Model) (env : FnEnv) (name : List Bytes) (σ : Ctx)
     (h : (n, σ') ∈ matchTree m env name m.startId σ) : Matches m (pureOf env) σ name n σ' :=
   Ndn.Lvs.matchTree_sound m env name _ _ _ _ h
 
+/-- **matchIter_sound.** Whatever the `user_fns` dictionary (functions missing or raising): everything the
+    iterative search yields before it ends or raises is a match of the specification (missing / raising
+    functions read as false). -/
+theorem matchIter_sound (m : Model) (hs : Sane m) (env : FnEnv) (name : List Bytes) (σ : Ctx) (n : Nat) (σ' : Ctx)
+    (h : (n, σ') ∈ (matchIter m env name σ).outs) : Matches m (pureOf env) σ name n σ' :=
+  Ndn.Lvs.matchTree_sound m env name _ _ _ _ (matchIter_outs_subset m hs.treeOK env name σ _ h)
+
 /-- **matchTree_iff_Sem.** Sound and complete w.r.t. the model-level specification. -/
 theorem matchTree_iff_Sem (m : Model) (hs : Sane m) (hv : VDet m) (env : FnEnv) (henv : EnvTotal env)
     (name : List Bytes) (σ : Ctx) (n : Nat) (σ' : Ctx) :
